@@ -83,8 +83,9 @@ Fixpoint k2_steps (sh : shape) (l : list step) : bool :=
   | _ :: rest => k2_steps sh rest
   end.
 
-(* class 4: the handler calls SendHeader after the client's context has ended, headers not sent
-   before: the wrapper latches them and the client's Header() shows them, a real connection delivers
+(* former class 4 (repaired in stream.go, SendHeader now looks at the context first; kept to state the
+   _v0 witness): the handler calls SendHeader after the client's context has ended, headers not sent
+   before: the wrapper latched them and the client's Header() showed them, a real connection delivers
    nothing any more *)
 Fixpoint k4_post (sent : bool) (l : list step) : bool :=
   match l with
@@ -104,7 +105,6 @@ Definition known_class (sc : scenario) : option Z :=
   if precancel sc then None
   else if k1_steps false (steps sc) then Some 1
   else if k2_steps (shp sc) (steps sc) then Some 2
-  else if k4_steps false (steps sc) then Some 4
   else None.
 
 Definition no_known (sc : scenario) : bool := match known_class sc with None => true | Some _ => false end.
@@ -185,7 +185,7 @@ Definition agrees (c : c13case) : bool :=
       (cw =? code_of (if via then newstream_lookup m false false else invoke_lookup m))
       && (cg =? grpc_unknown_method_code)
   | KShape m a b cw => cw =? code_of (newstream_lookup m a b)
-  | KMisuse k rw rg => mres_eqb rw (w_misuse k) && mres_eqb rg (g_misuse k)
+  | KMisuse k rw rg => mres_eqb rw (w_misuse fx_now k) && mres_eqb rg (g_misuse k)
   | KUnwrap ids leaf got => got =? obj_id (unwrap_fully (mk_chain ids leaf))
   end.
 
@@ -215,10 +215,10 @@ Definition C13_guard (c : c13case) : bool :=
   | KUnwrap _ _ _ => true
   end.
 
-(* class 3: the client calls SendMsg after CloseSend, or CloseSend a second time: the wrapper panics
-   (channel already closed), a real connection returns an Internal error / nil *)
+(* (former class 3, repaired: the client calls SendMsg after CloseSend, or CloseSend a second time: the
+   wrapper panicked on the closed channel, a real connection returns an Internal error / nil) *)
 Definition C13_known (c : c13case) : option Z :=
-  match c with KCall sc _ _ => known_class sc | KMisuse _ _ _ => Some 3 | _ => None end.
+  match c with KCall sc _ _ => known_class sc | _ => None end.
 
 Definition judge (c : c13case) : Z :=
   verdict (agrees c) (if C13_guard c then C13_ok c else true) (C13_known c).
